@@ -23,6 +23,10 @@ Theorem C05_co_iter_each_pair_once : NoDup (co_iter eps a b).
 Proof. exact (co_iter_nodup eps Heps a b Ha Hb). Qed.
 Theorem C05_co_iter_chronological : StronglySorted pair_lt (co_iter eps a b).
 Proof. exact (co_iter_sorted eps Heps a b Ha Hb). Qed.
+(* swapping the operands swaps every pair; in particular a timeline paired with itself yields (s, o) exactly when it
+   yields (o, s) - no "each unordered pair once" shortcut *)
+Theorem C05_co_iter_swapped_operands : forall s o, In (s, o) (co_iter eps a b) <-> In (o, s) (co_iter eps b a).
+Proof. exact (fun s o => co_iter_swap eps Heps a b s o Ha Hb). Qed.
 
 Variable S : sup.
 Theorem C05_crop_loose : forall x,
@@ -83,6 +87,7 @@ Print Assumptions C05_co_iter_is_comprehension.
 Print Assumptions C05_co_iter_exact.
 Print Assumptions C05_co_iter_each_pair_once.
 Print Assumptions C05_co_iter_chronological.
+Print Assumptions C05_co_iter_swapped_operands.
 Print Assumptions C05_crop_loose.
 Print Assumptions C05_crop_strict.
 Print Assumptions C05_crop_intersection.
